@@ -86,10 +86,86 @@ func suffixOf(s string) string {
 	return ""
 }
 
+var (
+	alphaRun   = regexp.MustCompile(`[A-Za-z]+`)
+	digitRun   = regexp.MustCompile(`[0-9]+`)
+	stockWords = []string{"foo", "bar", "qux", "kappa", "omega", "zeta", "aa", "zz", "x", "sp", "dev", "M", "snapshot"}
+)
+
+// wordsOf harvests the alphabetic tokens that occur in an ecosystem's versions.
+func wordsOf(versions []string) []string {
+	seen := map[string]bool{}
+	var out []string
+	for _, v := range versions {
+		for _, w := range alphaRun.FindAllString(v, -1) {
+			if len(w) <= 10 && !seen[w] && w != "v" && w != "V" {
+				seen[w] = true
+				out = append(out, w)
+			}
+		}
+	}
+	sort.Strings(out)
+	return append(out, stockWords...)
+}
+
+// replaceNth replaces the n-th match of re in s.
+func replaceNth(re *regexp.Regexp, s string, n int, with string) string {
+	locs := re.FindAllStringIndex(s, -1)
+	if n < 0 || n >= len(locs) {
+		return s
+	}
+	return s[:locs[n][0]] + with + s[locs[n][1]:]
+}
+
+// oddSpellings derives unusual but plausible variants of a suffix-bearing
+// version: renamed qualifier words, numbers beyond 64 bits, signed numbers.
+func (g *Gen) oddSpellings(p *prng, name, base string) []string {
+	var out []string
+	words := g.words[name]
+	m := baseSplit.FindStringSubmatch(base)
+	head, suf := base, ""
+	if m != nil {
+		head, suf = m[1]+m[2], m[3]
+	}
+	if suf == "" {
+		// borrow a suffix shape from another corpus version
+		for k := 0; k < 6 && suf == ""; k++ {
+			suf = suffixOf(pickS(p, g.class[name].versions))
+		}
+	}
+	if suf != "" {
+		na := len(alphaRun.FindAllString(suf, -1))
+		for k := 0; k < 3 && na > 0 && len(words) > 0; k++ {
+			out = append(out, head+replaceNth(alphaRun, suf, p.n(na), pickS(p, words)))
+		}
+		nd := len(digitRun.FindAllString(suf, -1))
+		if nd > 0 {
+			i := p.n(nd)
+			out = append(out, head+replaceNth(digitRun, suf, i, "20240101000000000001"))
+			out = append(out, head+replaceNth(digitRun, suf, i, "-7"))
+			out = append(out, head+replaceNth(digitRun, suf, i, "007"))
+		} else {
+			out = append(out, head+suf+".-7", head+suf+".20240101000000000001", head+suf+"7")
+		}
+		out = append(out, head+suf)
+	}
+	if m != nil {
+		nd := len(digitRun.FindAllString(m[2], -1))
+		out = append(out, m[1]+replaceNth(digitRun, m[2], p.n(nd), "18446744073709551617")+m[3])
+	}
+	return out
+}
+
 func (g *Gen) family(p *prng, name string) family {
+	return g.familyOf(p, name, pickS(p, g.class[name].versions))
+}
+
+// familyOf builds the family of spellings around a given base string (which
+// need not be valid in this ecosystem: related texts meeting across
+// ecosystems is the point of sharing a base between pools).
+func (g *Gen) familyOf(p *prng, name, base string) family {
 	ec := g.class[name]
 	e := EcoByName(name)
-	base := pickS(p, ec.versions)
 	var f family
 	add := func(s string) {
 		for _, c := range f.cands {
@@ -146,6 +222,9 @@ func (g *Gen) family(p *prng, name string) family {
 		lz := append([]string(nil), comps...)
 		lz[len(lz)-1] = "0" + lz[len(lz)-1]
 		add(pre + join(lz) + suf)
+		for _, o := range g.oddSpellings(p, name, base) {
+			add(o)
+		}
 		add("v" + strings.TrimLeft(base, "vV "))
 		add(" " + base + " ")
 	} else {
@@ -159,8 +238,8 @@ func (g *Gen) family(p *prng, name string) family {
 		j := p.n(i + 1)
 		rest[i], rest[j] = rest[j], rest[i]
 	}
-	if len(f.cands) > 20 {
-		f.cands = f.cands[:20]
+	if len(f.cands) > 24 {
+		f.cands = f.cands[:24]
 	}
 	for _, c := range f.cands {
 		if len(f.vs) < 12 && tryV(e, c) {
@@ -261,4 +340,158 @@ func (g *Gen) versSynth(p *prng, name string, f *family) [][2]string {
 		}
 	}
 	return out
+}
+
+// ---- adversarial inputs for small hashed tables ----
+//
+// A direct-mapped or bucketed cache only misbehaves when two live keys share a
+// slot. Waiting for random corpus strings to collide in a 256-slot table costs
+// a factor of 256; instead a "collide" run picks constructor texts that share a
+// bucket under one of the hash functions a Go programmer would plausibly reach
+// for, at a plausible power-of-two table size.
+
+func hFNV1a32(s string) uint64 {
+	h := uint32(2166136261)
+	for i := 0; i < len(s); i++ {
+		h = (h ^ uint32(s[i])) * 16777619
+	}
+	return uint64(h)
+}
+func hFNV132(s string) uint64 {
+	h := uint32(2166136261)
+	for i := 0; i < len(s); i++ {
+		h = (h * 16777619) ^ uint32(s[i])
+	}
+	return uint64(h)
+}
+func hFNV1a64(s string) uint64 {
+	h := uint64(14695981039346656037)
+	for i := 0; i < len(s); i++ {
+		h = (h ^ uint64(s[i])) * 1099511628211
+	}
+	return h
+}
+func hDJB2(s string) uint64 {
+	h := uint64(5381)
+	for i := 0; i < len(s); i++ {
+		h = h*33 + uint64(s[i])
+	}
+	return h
+}
+func hJava(s string) uint64 {
+	h := uint32(0)
+	for i := 0; i < len(s); i++ {
+		h = h*31 + uint32(s[i])
+	}
+	return uint64(h)
+}
+func hSum(s string) uint64 {
+	h := uint64(0)
+	for i := 0; i < len(s); i++ {
+		h += uint64(s[i])
+	}
+	return h
+}
+
+var crcTable = func() (t [256]uint32) {
+	for i := range t {
+		c := uint32(i)
+		for k := 0; k < 8; k++ {
+			if c&1 == 1 {
+				c = (c >> 1) ^ 0xedb88320
+			} else {
+				c >>= 1
+			}
+		}
+		t[i] = c
+	}
+	return
+}()
+
+func hCRC32(s string) uint64 {
+	c := ^uint32(0)
+	for i := 0; i < len(s); i++ {
+		c = crcTable[byte(c)^s[i]] ^ (c >> 8)
+	}
+	return uint64(^c)
+}
+
+var hashFns = []func(string) uint64{hFNV1a32, hFNV1a32, hFNV1a32, hFNV1a64, hFNV1a64, hFNV132, hDJB2, hJava, hSum, hCRC32}
+
+// colliders returns up to n distinct valid texts (versions if ranges is false)
+// that share a bucket under a seeded choice of hash function and table size,
+// after the trimming a constructor typically applies.
+func (g *Gen) colliders(p *prng, name string, ranges bool, n int) []string {
+	ec := g.class[name]
+	e := EcoByName(name)
+	src := ec.versions
+	ok := tryV
+	if ranges {
+		src, ok = ec.ranges, tryR
+	}
+	if len(src) == 0 {
+		return nil
+	}
+	h := hashFns[p.n(len(hashFns))]
+	// texts that collide under a 4096-entry mask collide under every smaller
+	// power-of-two table as well
+	mask := uint64(4096 - 1)
+	mod := p.chance(1, 6) // some tables use a prime-ish modulus instead of a mask
+	var m uint64 = mask + 1
+	if mod {
+		m = []uint64{31, 61, 127, 251, 509, 1021}[p.n(6)]
+	}
+	bucket := func(s string) uint64 {
+		x := h(strings.TrimSpace(s))
+		if mod {
+			return x % m
+		}
+		return x & mask
+	}
+	buckets := map[uint64][]string{}
+	seen := map[string]bool{}
+	add := func(s string) {
+		if !seen[s] && len(s) <= 64 {
+			seen[s] = true
+			b := bucket(s)
+			buckets[b] = append(buckets[b], s)
+		}
+	}
+	for i := 0; i < 900; i++ {
+		s := pickS(p, src)
+		add(s)
+		if nd := len(digitRun.FindAllString(s, -1)); nd > 0 {
+			add(replaceNth(digitRun, s, p.n(nd), strconv.Itoa(p.n(400))))
+		}
+	}
+	// visit buckets in a canonical order, best first
+	keys := make([]uint64, 0, len(buckets))
+	for k := range buckets {
+		keys = append(keys, k)
+	}
+	sort.Slice(keys, func(i, j int) bool {
+		if len(buckets[keys[i]]) != len(buckets[keys[j]]) {
+			return len(buckets[keys[i]]) > len(buckets[keys[j]])
+		}
+		return keys[i] < keys[j]
+	})
+	start := 0
+	if len(keys) > 4 {
+		start = p.n(4)
+	}
+	for _, k := range keys[start:] {
+		var out []string
+		for _, s := range buckets[k] {
+			if ok(e, s) {
+				out = append(out, s)
+				if len(out) == n {
+					break
+				}
+			}
+		}
+		if len(out) >= 2 {
+			return out
+		}
+	}
+	return nil
 }
